@@ -1,6 +1,7 @@
 package main
 
 import (
+	"go/constant"
 	"go/token"
 	"go/types"
 	"strings"
@@ -54,6 +55,44 @@ func stealFailedOn(v ssa.Value, b, to *ssa.BasicBlock, depth int, seen map[ssa.V
 		for _, a := range as {
 			if a != nil && (a == v || resolveVal(a) == resolveVal(v)) {
 				return true
+			}
+		}
+	}
+	// the result of a helper of the package that hands back the node only when stealing did not help (deleteFromLeaf: `if
+	// x.n >= minKVs || t.steal(x) { return nil }; return x`): every non-nil result is a node steal has failed for, where it
+	// is returned
+	{
+		var hc *ssa.Call
+		ridx := 0
+		switch x := v.(type) {
+		case *ssa.Call:
+			hc = x
+		case *ssa.Extract:
+			if c2, ok := x.Tuple.(*ssa.Call); ok {
+				hc, ridx = c2, x.Index
+			}
+		}
+		if hc != nil {
+			if cal := staticCallee(&hc.Call); cal != nil && cal.Blocks != nil && rootFn(cal).Pkg == rootFn(b.Parent()).Pkg {
+				all, any := true, false
+				instrs(cal, func(rb *ssa.BasicBlock, _ int, in ssa.Instruction) {
+					ret, ok := in.(*ssa.Return)
+					if !ok || ridx >= len(ret.Results) {
+						return
+					}
+					for _, vr := range virtualReturnsOf(ret, ridx) {
+						if isNilConst(vr.val) {
+							continue
+						}
+						any = true
+						if !stealFailedOn(vr.val, vr.blk, nil, depth+1, seen) {
+							all = false
+						}
+					}
+				})
+				if all && any {
+					return true
+				}
 			}
 		}
 	}
@@ -199,7 +238,7 @@ func ruleCursorLandsOnLeaf(c *Ctx, r *R) {
 				}
 				alts = append(alts, v)
 			}
-			expand(st.Val, 0)
+			expand(argOf(st.Val, di.calls), 0) // (c.pointAt(leftmostLeaf(child), 0): the stored node is the helper's argument)
 			for _, v := range alts {
 				if isNilConst(v) {
 					continue
@@ -241,11 +280,11 @@ func ruleCursorLandsOnLeaf(c *Ctx, r *R) {
 
 var _ = late(func() {
 	properties["C01"].Rules = append(properties["C01"].Rules,
-		&Rule{ID: "C01.merge-after-failed-steal", Floor: 2, Clause: "every call of merge(x) is reached only on paths on which steal(x) has just returned false (merge's precondition: no sibling can lend an entry, so the two halves plus the separator fit one node)", Run: ruleMergeAfterFailedSteal},
+		&Rule{ID: "C01.merge-after-failed-steal", Floor: 1, Clause: "every call of merge(x) is reached only on paths on which steal(x) has just returned false (merge's precondition: no sibling can lend an entry, so the two halves plus the separator fit one node)", Run: ruleMergeAfterFailedSteal},
 		&Rule{ID: "C01.sibling-bounds", Floor: 2, Clause: "siblings reads children[idx-1] only under idx > 0 and children[idx+1] only under idx < parent.n", Run: ruleSiblingBounds},
 		&Rule{ID: "C01.cursor-lands-on-leaf", Floor: 2, Clause: "when cursor.Next / cursor.Prev step off a separator of an interior node they position the cursor with leftmostLeaf / rightmostLeaf of the adjacent child (the in-order neighbour of a separator is in a leaf)", Run: ruleCursorLandsOnLeaf})
 	properties["C03"].Rules = append(properties["C03"].Rules,
-		&Rule{ID: "C03.merge-after-failed-steal", Floor: 2, Clause: "same rule as C01.merge-after-failed-steal: merge is reached only after steal failed for the same node - otherwise the merged node exceeds maxKVs", Run: ruleMergeAfterFailedSteal},
+		&Rule{ID: "C03.merge-after-failed-steal", Floor: 1, Clause: "same rule as C01.merge-after-failed-steal: merge is reached only after steal failed for the same node - otherwise the merged node exceeds maxKVs", Run: ruleMergeAfterFailedSteal},
 		&Rule{ID: "C03.sibling-bounds", Floor: 2, Clause: "same rule as C01.sibling-bounds", Run: ruleSiblingBounds})
 	properties["C02"].Rules = append(properties["C02"].Rules,
 		&Rule{ID: "C02.cursor-lands-on-leaf", Floor: 2, Clause: "same rule as C01.cursor-lands-on-leaf: iteration in either direction visits every entry only if stepping off a separator goes all the way down to the adjacent leaf", Run: ruleCursorLandsOnLeaf})
@@ -362,9 +401,49 @@ func ruleSplitReadsBeforeWrites(c *Ctx, r *R) {
 		return ok
 	}
 	// reads through the view whose result is stored into the fresh right node; writes into the node being split
-	var rightReads []*ssa.Call
-	var leftWrites []*ssa.Store
+	var rightReads []ssa.Instruction
+	var leftWrites []ssa.Instruction
+	// a helper of the package that fills the node it is handed from the view (x.fillFrom(&all, from, n, leaf)): a call of it
+	// is a read for the right half when the node is the fresh one, a write of the left half otherwise
+	fillsParam := func(h *ssa.Function) int {
+		res := -1
+		reads := false
+		for _, di := range deepInstrs(h, 1) {
+			switch x := di.in.(type) {
+			case *ssa.Store:
+				if nd, _, ok := nodeArray(x.Addr); ok {
+					if p, isP := resolveVal(nd).(*ssa.Parameter); isP && p.Parent() == h {
+						for k, q := range h.Params {
+							if q == p {
+								res = k
+							}
+						}
+					}
+				}
+			case *ssa.Call:
+				if cal := staticCallee(&x.Call); cal != nil && cal.Signature.Recv() != nil && isNamedTypeDeep(cal.Signature.Recv().Type(), treeRel, "amalgam1") {
+					reads = true
+				}
+			}
+		}
+		if !reads {
+			return -1
+		}
+		return res
+	}
 	instrs(fn, func(b *ssa.BasicBlock, _ int, in ssa.Instruction) {
+		if call, ok := in.(*ssa.Call); ok {
+			if cal := staticCallee(&call.Call); cal != nil && cal.Blocks != nil && rootFn(cal).Pkg == rootFn(fn).Pkg && cal != fn {
+				if k := fillsParam(cal); k >= 0 && k < len(call.Call.Args) {
+					if isFresh(call.Call.Args[k]) {
+						rightReads = append(rightReads, call)
+					} else {
+						leftWrites = append(leftWrites, call)
+					}
+				}
+			}
+			return
+		}
 		st, ok := in.(*ssa.Store)
 		if !ok {
 			return
@@ -393,7 +472,13 @@ func ruleSplitReadsBeforeWrites(c *Ctx, r *R) {
 		late := false
 		var at token.Pos
 		for _, w := range leftWrites {
-			if w.Block() == rd.Block() || reachesAvoiding(w.Block(), rd.Block(), viewBlk) {
+			if w.Block() == rd.Block() {
+				// straight-line code: the write comes first; or the block is a loop body that runs again without going
+				// back through the view's construction
+				if idxIn(w) < idxIn(rd) || reachesAvoiding(w.Block(), rd.Block(), viewBlk) {
+					late, at = true, w.Pos()
+				}
+			} else if reachesAvoiding(w.Block(), rd.Block(), viewBlk) {
 				late, at = true, w.Pos()
 			}
 		}
@@ -469,7 +554,8 @@ func ruleIterEndIsEquality(c *Ctx, r *R) {
 		r.ok(bin.Op == token.EQL || bin.Op == token.NEQ, "deque.dequeIterator.Next|position-test#"+itoa(n), bin.Pos(), "the iterator compares two ring positions ("+x.String()+" "+bin.Op.String()+" "+y.String()+") by order: positions wrap around, so only equality tells that the last item was reached - a wrapped deque yields one item")
 	}
 	if n == 0 {
-		r.undecided("deque.dequeIterator.Next|end-test", fn.Pos(), "no comparison of the iterator's position with the deque's end found")
+		// an iterator that counts items (n < d.Len()) instead of walking ring positions has nothing to get wrong here
+		r.discharged("deque.dequeIterator.Next|end-test", fn.Pos(), "the iterator does not compare ring positions with each other")
 	}
 }
 
@@ -527,7 +613,55 @@ func ruleNewNotifiesAll(c *Ctx, r *R) {
 			}
 		}
 	}
+	var viaHelper []*ssa.Call
 	if header == nil {
+		// h.notifyAllIndexes() / h.heapify(): a helper of the package that runs the notification loop over the whole array
+		instrs(fn, func(_ *ssa.BasicBlock, _ int, in ssa.Instruction) {
+			call, ok := in.(*ssa.Call)
+			if !ok {
+				return
+			}
+			cal := staticCallee(&call.Call)
+			if cal == nil || cal.Blocks == nil || rootFn(cal).Pkg != rootFn(fn).Pkg || fname(cal) == "notifyIndexChanged" {
+				return
+			}
+			for _, di := range deepInstrs(cal, 1) {
+				c2, ok := di.in.(*ssa.Call)
+				if !ok || len(di.calls) > 0 {
+					continue
+				}
+				cc := staticCallee(&c2.Call)
+				isNotify := cc != nil && fname(cc) == "notifyIndexChanged"
+				if !isNotify {
+					if ld, isLd := c2.Call.Value.(*ssa.UnOp); isLd && ld.Op == token.MUL {
+						if fa, isFA := ld.X.(*ssa.FieldAddr); isFA && fieldName(fa.X.Type(), fa.Field) == "indexChanged" {
+							isNotify = true
+						}
+					}
+				}
+				if isNotify && reaches(c2.Block(), c2.Block()) {
+					// every return of the helper lies behind that loop
+					h := c2.Block()
+					for d := c2.Block(); d != nil; d = d.Idom() {
+						if d != c2.Block() && reaches(c2.Block(), d) {
+							h = d
+							break
+						}
+					}
+					okAll := true
+					instrs(cal, func(rb *ssa.BasicBlock, _ int, in2 ssa.Instruction) {
+						if _, isRet := in2.(*ssa.Return); isRet && !h.Dominates(rb) {
+							okAll = false
+						}
+					})
+					if okAll {
+						viaHelper = append(viaHelper, call)
+					}
+				}
+			}
+		})
+	}
+	if header == nil && len(viaHelper) == 0 {
 		r.violated("heap.New|notify-loop", fn.Pos(), "New has no loop that reports the index of every initial item")
 		return
 	}
@@ -538,7 +672,12 @@ func ruleNewNotifiesAll(c *Ctx, r *R) {
 			return
 		}
 		n++
-		good := header.Dominates(b)
+		good := header != nil && header.Dominates(b)
+		for _, hc := range viaHelper {
+			if hc.Block().Dominates(b) {
+				good = true
+			}
+		}
 		if !good {
 			// nothing to report: the return is under len(initial) == 0
 			for _, g := range guardsOf(b) {
@@ -669,6 +808,66 @@ func ruleCtxErrOnlyAfterDone(c *Ctx, r *R) {
 						}
 					}
 				}
+				// in a helper that maps an outcome code to the error (outcomeErr(ctx, o): `case pipeCtxDone: return ctx.Err()`): the
+				// code that selects this return is assigned, at the call site, only inside a <-ctx.Done() arm
+				if !good && len(di.calls) > 0 {
+					site := di.calls[len(di.calls)-1]
+					for _, g := range guardsOfRaw(vr.blk) {
+						cf, ok := g.asCmp()
+						if !ok || cf.op != token.EQL {
+							continue
+						}
+						x, y := cf.x, cf.y
+						if _, isK := x.(*ssa.Const); isK {
+							x, y = y, x
+						}
+						prm, isP := resolveVal(x).(*ssa.Parameter)
+						kc, isK := y.(*ssa.Const)
+						if !isP || !isK || kc.Value == nil || prm.Parent() != ret.Parent() {
+							continue
+						}
+						pi := -1
+						for k, q := range prm.Parent().Params {
+							if q == prm {
+								pi = k
+							}
+						}
+						if pi < 0 || pi >= len(site.Call.Args) {
+							continue
+						}
+						phi, isPhi := site.Call.Args[pi].(*ssa.Phi)
+						if !isPhi {
+							continue
+						}
+						var doneBodies []*ssa.BasicBlock
+						for _, op := range chanOpsOf(site.Parent()) {
+							for _, a := range op.arms {
+								if !a.send && a.kind == "ctx-done" && a.body != nil {
+									doneBodies = append(doneBodies, a.body)
+								}
+							}
+						}
+						all, any := true, false
+						for k, e := range phi.Edges {
+							ek, isEK := e.(*ssa.Const)
+							if !isEK || ek.Value == nil || !constant.Compare(ek.Value, token.EQL, kc.Value) {
+								continue
+							}
+							any = true
+							pb := phi.Block().Preds[k]
+							in := false
+							for _, db := range doneBodies {
+								if db == pb || db.Dominates(pb) {
+									in = true
+								}
+							}
+							all = all && in
+						}
+						if all && any {
+							good = true
+						}
+					}
+				}
 				r.ok(good, name+"|ctx-err-known-non-nil#"+itoa(n), retPos(ret), "ctx.Err() is returned outside a <-ctx.Done() arm and without a test that it is non-nil: it is nil until Done is closed (also when the deadline has just passed on the wall clock), so the operation reports success for something it did not do")
 			}
 		}
@@ -740,6 +939,48 @@ func ruleFreshBatchAfterHandover(c *Ctx, r *R) {
 			}
 		}
 	}
+	// the hand-over written with a module helper: chans.SendContext(bgCtx, out.batchC, batch)
+	for _, g := range bi.all {
+		instrs(g, func(_ *ssa.BasicBlock, _ int, in ssa.Instruction) {
+			call, ok := in.(*ssa.Call)
+			if !ok {
+				return
+			}
+			cal := staticCallee(&call.Call)
+			if cal == nil || !ctxBlockingHelper(c, origin(cal)) {
+				return
+			}
+			for ai, a := range call.Call.Args {
+				if fieldOfChan(a) != "batchC" || ai+1 >= len(call.Call.Args) {
+					continue
+				}
+				bv := loadVar(call.Call.Args[ai+1])
+				if !bv.ok() {
+					continue
+				}
+				for _, st := range storesToVar(bv) {
+					if st.Parent() != g || !((st.Block() == call.Block() && idxIn(st) > idxIn(call)) || reaches(call.Block(), st.Block())) {
+						continue
+					}
+					n++
+					good := true
+					why := ""
+					for _, lf := range cellLeaves(st.Val, nil, 0) {
+						switch x := lf.v.(type) {
+						case *ssa.MakeSlice:
+						case *ssa.Const:
+							if x.Value != nil {
+								good, why = false, path(x)
+							}
+						default:
+							good, why = false, path(lf.v)
+						}
+					}
+					r.ok(good, "stream.BatchFunc|batch-after-handover#"+itoa(n), st.Pos(), "after a batch was handed to the consumer the next one is started in "+why+" instead of a new allocation: the consumer's slice and the pending batch share a backing array (an append by the consumer overwrites items of the next batch)")
+				}
+			}
+		})
+	}
 	if n == 0 {
 		r.undecided("stream.BatchFunc|batch-after-handover", token.NoPos, "no assignment to the batch after a hand-over found")
 	}
@@ -757,26 +998,37 @@ func ruleMergeDeferOrder(c *Ctx, r *R) {
 	}
 	for _, w := range bi.spawned {
 		var closeD, acctD *ssa.Defer
-		instrs(w, func(b *ssa.BasicBlock, _ int, in ssa.Instruction) {
-			d, ok := in.(*ssa.Defer)
-			if !ok {
-				return
+		// (the worker's body may live in a helper the goroutine calls: go func() { defer wg.Done(); m.forward(i) }())
+		var frames []*ssa.Function
+		for _, fr := range deepFrames(w, 2) {
+			frames = append(frames, fr.f)
+		}
+		for _, wf := range frames {
+			if closeD != nil && acctD != nil {
+				break
 			}
-			if d.Call.IsInvoke() && d.Call.Method.Name() == "Close" && streamKind(d.Call.Value.Type()) != 0 {
-				closeD = d
-				return
-			}
-			// the accounting: a deferred function (literal or helper) that can close the pipe's sender
-			if cal := staticCallee(&d.Call); cal != nil && cal.Blocks != nil {
-				for _, di := range deepInstrs(cal, 2) {
-					if call, ok := di.in.(*ssa.Call); ok {
-						if cc := staticCallee(&call.Call); cc != nil && fname(cc) == "Close" && cc.Signature.Recv() != nil && isNamedTypeDeep(cc.Signature.Recv().Type(), "stream", "PipeSender") {
-							acctD = d
+			closeD, acctD = nil, nil
+			instrs(wf, func(b *ssa.BasicBlock, _ int, in ssa.Instruction) {
+				d, ok := in.(*ssa.Defer)
+				if !ok {
+					return
+				}
+				if d.Call.IsInvoke() && d.Call.Method.Name() == "Close" && streamKind(d.Call.Value.Type()) != 0 {
+					closeD = d
+					return
+				}
+				// the accounting: a deferred function (literal or helper) that can close the pipe's sender
+				if cal := staticCallee(&d.Call); cal != nil && cal.Blocks != nil {
+					for _, di := range deepInstrs(cal, 2) {
+						if call, ok := di.in.(*ssa.Call); ok {
+							if cc := staticCallee(&call.Call); cc != nil && fname(cc) == "Close" && cc.Signature.Recv() != nil && isNamedTypeDeep(cc.Signature.Recv().Type(), "stream", "PipeSender") {
+								acctD = d
+							}
 						}
 					}
 				}
-			}
-		})
+			})
+		}
 		if closeD == nil || acctD == nil {
 			r.undecided("stream.Merge|defers", w.Pos(), "the deferred Close of the input / the deferred last-one-out accounting were not found")
 			continue
@@ -824,7 +1076,9 @@ func ruleBgCtxArmReturnsErr(c *Ctx, r *R) {
 		}
 	}
 	if n == 0 {
-		r.undecided("parallel.MapStream|ctx-arms", token.NoPos, "no ctx.Done() arm with a return found in MapStream's goroutines")
+		// the waits are written with module helpers (chans.SendContext / RecvContext) whose error is handed on: no arm of the
+		// goroutines' own to get wrong (the helpers' arms are decided by C10 / C18.ctx-arm-returns-err)
+		r.discharged("parallel.MapStream|ctx-arms", token.NoPos, "MapStream's goroutines have no <-ctx.Done() arm of their own")
 	}
 }
 
@@ -957,7 +1211,7 @@ var _ = late(func() {
 	properties["C12"].Rules = append(properties["C12"].Rules,
 		&Rule{ID: "C12.merge-defer-order", Floor: 1, Clause: "in stream.Merge's workers the last-one-out accounting (which closes the pipe's sender) is deferred after - and therefore runs before - the Close of the worker's input", Run: ruleMergeDeferOrder})
 	properties["C14"].Rules = append(properties["C14"].Rules,
-		&Rule{ID: "C14.bg-ctx-arm-returns-err", Floor: 2, Clause: "every return inside a <-ctx.Done() arm of MapStream's goroutines yields ctx.Err() (a goroutine that drops work because the context ended reports it to the errgroup)", Run: ruleBgCtxArmReturnsErr},
+		&Rule{ID: "C14.bg-ctx-arm-returns-err", Floor: 1, Clause: "every return inside a <-ctx.Done() arm of MapStream's goroutines yields ctx.Err() (a goroutine that drops work because the context ended reports it to the errgroup)", Run: ruleBgCtxArmReturnsErr},
 		&Rule{ID: "C14.default-covers-negatives", Floor: 2, Clause: "MapIterator / MapStream never test a raw int parameter (parallelism, bufferSize) against 0 by == or != (the documented defaults apply to every value <= 0)", Run: ruleDefaultCoversNegatives})
 	properties["C15"].Rules = append(properties["C15"].Rules,
 		&Rule{ID: "C15.gen-only-incremented", Floor: 8, Clause: "every store to the modification counter of Deque / internal/heap.Heap is gen + 1, and a whole-value replacement through the receiver carries the old counter over", Run: ruleGenOnlyIncremented})
@@ -993,8 +1247,10 @@ func ruleDoneAfterF(c *Ctx, r *R) {
 			return false
 		}
 		for _, lf := range valueLeaves(call.Call.Value, nil, 0) {
-			if p, ok := lf.v.(*ssa.Parameter); ok && rootFn(p.Parent()) == sp {
-				return true
+			if p, ok := lf.v.(*ssa.Parameter); ok && (rootFn(p.Parent()) == sp || p.Parent() == clo) {
+				if _, isSig := p.Type().Underlying().(*types.Signature); isSig {
+					return true // (go g.runSpawned(f): the goroutine body is a named method that is handed f)
+				}
 			}
 		}
 		return false
